@@ -48,6 +48,7 @@ const (
 var (
 	verifTracing   bool
 	verifYielding  bool
+	verifYieldLong bool
 	verifYieldSeed uint64
 	verifSeq       atomic.Uint64
 	verifRun       atomic.Uint64
@@ -87,6 +88,108 @@ func init() {
 			verifYieldSeed = n
 			verifYielding = true
 		}
+	}
+	// VERIF_YIELD_LONG=1: additionally let about an eighth of the analyzer
+	// executions of every package report their completion late (see
+	// verifHoldBack).
+	verifYieldLong = verifYielding && os.Getenv("VERIF_YIELD_LONG") != ""
+}
+
+// verifPkgProgress counts, per package, how many of its analyzers have begun
+// to execute.
+type verifPkgProgress struct {
+	n     int
+	begun atomic.Int64
+}
+
+var (
+	verifProgress sync.Map // *analyzerAction -> *verifPkgProgress
+	verifInline   sync.Map // *analyzerAction -> struct{}: runs on the goroutine of runAnalyzers' loop
+)
+
+// verifHoldBack makes some of those analyzer executions of a package that few
+// others wait for (about an eighth of the leaves, and half of those with one to
+// three transitive dependents: the fact-like analyzers that run early) report
+// their completion late: after the analyzer has run, its handler waits until nearly all of the
+// package's analyzers have begun to execute (or 1.5 s have passed) before it
+// releases its token and triggers its dependents. An analyzer that usually
+// finishes long before another one starts is then no longer ordered before it
+// by the scheduler's own hand-off (completion -> queue -> spawn), as it would
+// not be if it simply took longer. The only synchronisation this adds orders
+// the *beginnings* of other executions before the late completion; what those
+// executions do stays unordered with what the held-back one did, so the race
+// detector sees their conflicts. For the same reason the hold is decided by a
+// pure function of the seed and the names, without a shared counter that every
+// finishing execution would update (that would chain all of them in
+// happens-before order). Held executions keep their tokens; one that runs
+// inline on the goroutine of runAnalyzers' loop is never held.
+// verifDependents counts the analyzer executions that transitively wait for a
+// (not counting the package's root action), up to limit.
+func verifDependents(a *analyzerAction, limit int) int {
+	seen := map[action]bool{a: true}
+	todo := []action{a}
+	n := 0
+	for len(todo) > 0 && n <= limit {
+		cur := todo[len(todo)-1]
+		todo = todo[:len(todo)-1]
+		for _, t := range cur.Triggers() {
+			if ta, ok := t.(*analyzerAction); ok && ta.Analyzer != nil && !seen[t] {
+				seen[t] = true
+				n++
+				todo = append(todo, t)
+			}
+		}
+	}
+	return n
+}
+
+func verifHoldBack(ev string, args []any, x uint64) {
+	switch ev {
+	case "start":
+		if aa, ok := args[0].(*analyzerAction); ok && len(args) > 1 {
+			if spawned, _ := args[1].(bool); !spawned {
+				verifInline.Store(aa, struct{}{})
+			}
+		}
+	case "abegin":
+		all := args[2].(map[*analysis.Analyzer]*analyzerAction)
+		p := &verifPkgProgress{n: len(all)}
+		for _, a := range all {
+			verifProgress.Store(a, p)
+		}
+	case "collect":
+		all := args[2].(map[*analysis.Analyzer]*analyzerAction)
+		for _, a := range all {
+			verifProgress.Delete(a)
+			verifInline.Delete(a)
+		}
+	case "exec_begin", "exec_end":
+		aa, ok := args[0].(*analyzerAction)
+		if !ok {
+			return
+		}
+		v, ok := verifProgress.Load(aa)
+		if !ok {
+			return
+		}
+		p := v.(*verifPkgProgress)
+		if ev == "exec_begin" {
+			p.begun.Add(1)
+			return
+		}
+		nt := verifDependents(aa, 4)
+		if nt > 3 || p.n < 32 || (nt == 0 && (x>>20)%8 != 0) || (nt > 0 && (x>>20)%2 != 0) {
+			return
+		}
+		if _, inline := verifInline.Load(aa); inline {
+			return
+		}
+		target := int64(p.n - 12)
+		deadline := time.Now().Add(1500 * time.Millisecond)
+		for p.begun.Load() < target && time.Now().Before(deadline) {
+			time.Sleep(500 * time.Microsecond)
+		}
+
 	}
 }
 
@@ -169,6 +272,9 @@ func verifYield(ev string, args []any) {
 		}
 	}
 	x := h.Sum64()
+	if verifYieldLong {
+		verifHoldBack(ev, args, x)
+	}
 	switch x % 8 {
 	case 0, 1:
 		n := int(x>>8)%4 + 1
